@@ -1327,6 +1327,33 @@ def nested_jaxpr_seeded_events(ctx, rule="OWN-nested-key-stream"):
             ctx.bad(rule, construct, "sub-jaxprs run only through a fresh seed(...)", "no seed(...) of the equation's sub-jaxprs found in this arm", loc)
         else:
             ctx.ok(rule, construct, f"params[{key!r}] reaches only jaxpr_as_fun → seed(...)")
+    # any arm (including ones added later): a sub-jaxpr taken from the equation's params must not be handed to JAX's plain evaluator or be
+    # called un-seeded — Seed is an interpreter over equations, not a tracer: sampling sites in an inlined callee are then simply bound
+    # (keyless impl with the counter key baked in at trace time) and the result no longer depends on the key
+    def from_eqn(t):
+        for x in subterms(t):
+            if x[0] == "attr" and x[2] == "params" and x[1][0] == "iter":
+                return True
+            if is_call(x) and x[1][0] == "attr" and x[1][2] == "get_bind_params":
+                return True
+        return False
+    plain = []
+    for e in s.events:
+        if e[1] != "call":
+            continue
+        t = e[2]
+        fn = t[1]
+        is_plain_eval = fn[0] == "name" and fn[1].rsplit(".", 1)[-1] in ("eval_jaxpr", "eval_jaxpr_transpose") and not fn[1].startswith(PJ)
+        is_unseeded_call = is_call(fn) and fn[1][0] == "name" and fn[1][1].endswith("jaxpr_as_fun")
+        if (is_plain_eval or is_unseeded_call) and from_eqn(t):
+            plain.append((t, e[3]))
+    if plain:
+        t, ln = plain[0]
+        ctx.bad(rule, "pjax.Seed.eval_jaxpr_seed[sub-jaxpr evaluation]", "sub-jaxprs of an equation are evaluated only by a seed interpreter",
+                f"{short(t, ev, 160)} evaluates a sub-jaxpr of the equation with JAX's plain evaluator: sampling sites inside it escape the Seed interpreter, are bound "
+                "unseeded (process-global counter key) when the seeded function runs eagerly, and never reach the lowering rule", f"{s.module.path}:{ln}")
+    else:
+        ctx.ok(rule, "pjax.Seed.eval_jaxpr_seed[sub-jaxpr evaluation]", "no arm hands an equation's sub-jaxpr to a plain evaluator")
     # stated as an observation only: a tracer/concreteness test in the interpreter means eager and traced runs take different paths
     tr = sorted({short(c, ev, 80) for e in s.events for c, v in e[0] if isinstance(c, tuple) and any(x[0] == "name" and x[1].split(".")[-1] in ("Tracer", "is_concrete") for x in subterms(c))})
     if tr:
